@@ -55,11 +55,24 @@ RULE = (
     "namespace, each of None 0 1 '0' '1' '' False True 0.0 'a' 'a/b' supplied by keyword, by a "
     "render context, through a render tag, through an include tag, or by keyword and context "
     "with different values (keyword must win)} — all pairs sync, same-name pairs also async; "
-    "the reference keys entries by (typed namespace value, name).  Enumerated families (one representative per renaming of names / "
+    "the reference keys entries by (typed namespace value, name).  Globals precedence: the "
+    "'globals' family (length <= 3: no globals / template globals / template globals + render "
+    "argument / render argument only, sync/async, modify) runs on an Environment whose own "
+    "globals define the SAME variable name (render argument > template globals > environment "
+    "globals; the uncached twin has the same environment globals).  Templates that load "
+    "templates: the 'partials' family loads and renders page (render card, card renders "
+    "leaf), ipage (include card), child (extends base, base includes leaf), solo, card, with "
+    "modify/delete of card / leaf / base / page, capacity 1-3, namespaces through the template "
+    "globals (seen by the tags through the render context) — every history of length <= 4 "
+    "all-sync and <= 3 all-async, plus A,A,B,[B2],CHANGE,A skeletons sync / async / "
+    "alternating; the reference performs each tag's load as an ordinary load of the partial's "
+    "(namespace, name) in document order, with the recency updates and evictions that "
+    "implies.  Enumerated families (one representative per renaming of names / "
     "namespaces, histories end in a load, directly repeated modify/delete/fail dropped): "
     "quick = every history of length <= 3 with sync/async chosen per step + every history "
-    "of length 4 whose loads are all sync or all async (file-system families: all sync; "
-    "capacity 1 and 2 only); "
+    "of length 4 whose loads are all sync or all async (file-system families, and "
+    "auto_reload off for the families without freshness information: all sync; file-system "
+    "families: newer mtimes only at length 4; capacity 1 and 2 only); "
     "thorough = every history of length <= 4 with sync/async per step + length 5 all-sync "
     "for the dict-based families; plus the "
     "'lrudeep' family (sync loads and modifies only, length <= 6 quick / 7 thorough) that is "
